@@ -66,6 +66,7 @@ func genCrashScn(rng *rand.Rand, maxN int) faultScn {
 		sc.Actions = append(sc.Actions, faultAction{At: time.Duration(rng.Intn(6000)) * time.Millisecond, Kind: "loss", P: p})
 	}
 	sortActions(sc.Actions)
+	sc.rareConfig(rng)
 	return sc
 }
 
